@@ -46,6 +46,12 @@ CHECKS['C01'] = dict(technique='runtime monitoring: round-trip oracle (bytes of 
              note='Loss-warning exemption = any decompile warning other than the byte-blob notice; exemptions are counted. Generators avoid constant conditions / unreferenced MSG scripts most of the time '
                   '(both are recorded known findings).',
              design='3/C01')
+CHECKS['C19'] = dict(technique='runtime monitoring: repeated fresh process launches with byte comparison of stdout, stderr and output files',
+             text='Exploration. Each (command, input) is executed N times as fresh vtruth processes (new hash-map seeds each); all observations must be byte-identical. Inputs are constructed to have '
+                  'competing entries at hash-map iterations that reach output (register-name clashes, enum definitions, too-complex notes, many simultaneous errors) plus generated/mutated sources, '
+                  'decompiles and extracts. N = 8 quick (miss <= 2^-7 per 2-way race), 40 thorough.',
+             note='Probabilistic: a k-way hash-order race is missed with probability <= (1/k!)^(N-1)... at worst 2^-(N-1). Only the hash seed varies between runs (single-threaded tool).',
+             design='3/C19')
 WIP = {}  # property -> reason (not claimed)
 
 def main():
